@@ -299,6 +299,7 @@ func runC20(c *Ctx) {
 	constructorOnly := map[string]bool{"newConn": true, "NewServer": true}
 	type pairKey struct{ fld, a, b string }
 	pairs := map[pairKey][2]access{}
+	pairSites := map[pairKey]map[string]bool{}
 	names := func(ro string) []access { return accs[ro] }
 	// happens-before: the LMTP delivery goroutine is joined (receive from its
 	// done channel on every path) before handleDataLMTP returns, so it can only
@@ -339,18 +340,19 @@ func runC20(c *Ctx) {
 					// same function in both roles (e.g. Conn.Close from cmd and srvclose) with the same lockset: self-synchronised only if locked
 					// the command-loop side is identified by function, the other side by role only, so that
 					// moving code between helpers on the closing side does not create "new" pairs
-					ka := fmt.Sprintf("%s@%s[%s]", rw(a.write), funcName(a.fn), ra.name)
+					// a pair is identified by field, access kinds and thread roles; the functions that contain the
+					// accesses are listed in the report but are not part of the key, so that moving an access into
+					// a helper does not turn a recorded race into a "new" one
+					ka := fmt.Sprintf("%s[%s]", rw(a.write), ra.name)
 					kb := fmt.Sprintf("%s[%s]", rw(b.write), rb.name)
-					if ra.name != "cmd" {
-						ka = fmt.Sprintf("%s[%s]", rw(a.write), ra.name)
-						if rb.name == "cmd" {
-							kb = fmt.Sprintf("%s@%s[%s]", rw(b.write), funcName(b.fn), rb.name)
-						}
-					}
 					k := pairKey{a.owner + "." + a.fld.Name(), ka, kb}
 					if _, dup := pairs[k]; !dup {
 						pairs[k] = [2]access{a, b}
 					}
+					if pairSites[k] == nil {
+						pairSites[k] = map[string]bool{}
+					}
+					pairSites[k][funcName(a.fn)+" / "+funcName(b.fn)] = true
 				}
 			}
 		}
@@ -371,7 +373,7 @@ func runC20(c *Ctx) {
 	for _, k := range keys {
 		p := pairs[k]
 		R.Ob(fmt.Sprintf("%s/%s vs %s", k.fld, k.a, k.b), c.P.InstrPos(p[0].in), false,
-			fmt.Sprintf("unordered conflicting accesses to %s: %s at %s holding %v, and %s at %s holding %v", k.fld, k.a, c.P.InstrPos(p[0].in), setList(p[0].locks), k.b, c.P.InstrPos(p[1].in), setList(p[1].locks)))
+			fmt.Sprintf("unordered conflicting accesses to %s: %s at %s holding %v, and %s at %s holding %v; function pairs: %s", k.fld, k.a, c.P.InstrPos(p[0].in), setList(p[0].locks), k.b, c.P.InstrPos(p[1].in), setList(p[1].locks), strings.Join(setList(pairSites[k]), "; ")))
 	}
 	// positive control so that the rule is never vacuous: the locked accessors exist
 	for _, g := range []string{"(*Conn).Session", "(*Conn).setSession", "(*Conn).Close", "(*Conn).reset"} {
@@ -382,6 +384,8 @@ func runC20(c *Ctx) {
 	}
 
 	ruleGoCapture(c)
+
+	ruleResultOnEveryExit(c) // "never deadlocks": the command loop blocks on the delivery result
 
 	R.Rule("R-lock-order", "E7", "the acquired-while-holding graph over the package mutexes is acyclic; no blocking channel operation or backend-independent wait happens under a lock", 2)
 	edges := map[[2]string]string{}
